@@ -1,0 +1,187 @@
+//go:build verif
+
+// Verification hook (engine `pool`, property C14). Builds a data plane through the regular
+// configuration calls on the registered udpip underlay with a caller-supplied connection opener
+// (scripted sockets), runs the real pipeline (`dataPlane.Run`), and lets the harness audit the
+// packet pool: which buffers are currently in the pool channel, and which buffer a byte slice
+// handed to a socket belongs to. Nothing here is compiled without the `verif` build tag.
+
+package router
+
+import (
+	"context"
+	"fmt"
+	"net/netip"
+	"time"
+	"unsafe"
+
+	"github.com/scionproto/scion/pkg/addr"
+	"github.com/scionproto/scion/private/topology"
+	"github.com/scionproto/scion/router/control"
+)
+
+// VerifConcIf describes one external interface of the router under test.
+type VerifConcIf struct {
+	ID       uint16
+	LinkTo   topology.LinkType
+	Neighbor addr.IA
+	BFD      bool
+	Local    string
+	Remote   string
+}
+
+// VerifConcCfg is the configuration of the pipeline under test.
+type VerifConcCfg struct {
+	IA                    addr.IA
+	Key                   []byte
+	Ifs                   []VerifConcIf
+	Internal              string // underlay address of the internal interface
+	NumProcessors         int
+	NumSlowPathProcessors int
+	BatchSize             int
+	Opener                any // udpip.ConnOpener
+	DetectMult            uint8
+	DesiredMinTxInterval  time.Duration
+	RequiredMinRxInterval time.Duration
+}
+
+// VerifConcDP wraps a running data plane.
+type VerifConcDP struct {
+	d      *dataPlane
+	cancel context.CancelFunc
+	done   chan struct{}
+	base   uintptr
+}
+
+// VerifConcNewDP configures a data plane (not yet running).
+func VerifConcNewDP(cfg VerifConcCfg) (v *VerifConcDP, err error) {
+	defer func() {
+		if r := recover(); r != nil {
+			err = fmt.Errorf("panic while configuring: %v", r)
+		}
+	}()
+	d := newDataPlane(RunConfig{
+		NumProcessors:         cfg.NumProcessors,
+		NumSlowPathProcessors: cfg.NumSlowPathProcessors,
+		BatchSize:             cfg.BatchSize,
+	}, false)
+	if err := d.SetIA(cfg.IA); err != nil {
+		return nil, err
+	}
+	if err := d.SetKey(cfg.Key); err != nil {
+		return nil, err
+	}
+	for _, i := range cfg.Ifs {
+		if err := d.AddNeighborIA(i.ID, i.Neighbor); err != nil {
+			return nil, err
+		}
+	}
+	d.underlays["udpip"].SetConnOpener(cfg.Opener)
+	localHost := addr.HostIP(netip.MustParseAddrPort(cfg.Internal).Addr())
+	if err := d.AddInternalInterface(localHost, "udpip", cfg.Internal); err != nil {
+		return nil, err
+	}
+	for _, i := range cfg.Ifs {
+		disable := !i.BFD
+		link := control.LinkInfo{
+			Provider: "udpip",
+			Local:    control.LinkEnd{IA: cfg.IA, Addr: i.Local},
+			Remote:   control.LinkEnd{IA: i.Neighbor, Addr: i.Remote},
+			BFD: control.BFD{
+				Disable:               &disable,
+				DetectMult:            cfg.DetectMult,
+				DesiredMinTxInterval:  cfg.DesiredMinTxInterval,
+				RequiredMinRxInterval: cfg.RequiredMinRxInterval,
+			},
+			LinkTo: i.LinkTo,
+		}
+		lh := addr.HostIP(netip.MustParseAddrPort(i.Local).Addr())
+		rh := addr.HostIP(netip.MustParseAddrPort(i.Remote).Addr())
+		if err := d.AddExternalInterface(i.ID, link, lh, rh); err != nil {
+			return nil, err
+		}
+	}
+	return &VerifConcDP{d: d, done: make(chan struct{})}, nil
+}
+
+// Start runs the real pipeline (dataPlane.Run) and returns once it is running.
+func (v *VerifConcDP) Start() error {
+	ctx, cancel := context.WithCancel(context.Background())
+	v.cancel = cancel
+	errc := make(chan error, 1)
+	go func() {
+		defer close(v.done)
+		errc <- v.d.Run(ctx)
+	}()
+	deadline := time.Now().Add(30 * time.Second)
+	for !v.d.isRunning() {
+		select {
+		case err := <-errc:
+			return fmt.Errorf("Run returned early: %v", err)
+		default:
+		}
+		if time.Now().After(deadline) {
+			return fmt.Errorf("data plane did not start")
+		}
+		time.Sleep(100 * time.Microsecond)
+	}
+	return nil
+}
+
+// PoolSize is the number of buffers the pool was created with.
+func (v *VerifConcDP) PoolSize() int { return cap(v.d.packetPool.pool) }
+
+// BufSize is the size of one packet buffer.
+func (v *VerifConcDP) BufSize() int { return bufSize }
+
+// PoolAudit takes every packet currently in the pool channel out, notes its buffer, and puts it
+// back. Returns the buffer addresses seen (duplicates included).
+func (v *VerifConcDP) PoolAudit() []uintptr {
+	var pkts []*Packet
+	for {
+		select {
+		case p := <-v.d.packetPool.pool:
+			pkts = append(pkts, p)
+			continue
+		default:
+		}
+		break
+	}
+	out := make([]uintptr, len(pkts))
+	for i, p := range pkts {
+		out[i] = uintptr(unsafe.Pointer(p.buffer))
+	}
+	for _, p := range pkts {
+		// cannot block: at most cap(pool) distinct packets exist; if the pool was over-full
+		// (double Put) fall back to dropping the surplus reference.
+		select {
+		case v.d.packetPool.pool <- p:
+		default:
+		}
+	}
+	return out
+}
+
+// BufferOf returns the address of the packet buffer that contains the first byte of b, given
+// the address of any one packet buffer (all buffers are slots of one array).
+func (v *VerifConcDP) BufferOf(b []byte, anyBuffer uintptr) uintptr {
+	if len(b) == 0 && cap(b) == 0 {
+		return 0
+	}
+	a := uintptr(unsafe.Pointer(unsafe.SliceData(b)))
+	sz := uintptr(bufSize)
+	if a >= anyBuffer {
+		return anyBuffer + (a-anyBuffer)/sz*sz
+	}
+	k := (anyBuffer - a + sz - 1) / sz
+	return anyBuffer - k*sz
+}
+
+// Shutdown stops the underlays and the pipeline like the router does on exit.
+func (v *VerifConcDP) Shutdown() {
+	v.d.Shutdown()
+	if v.cancel != nil {
+		v.cancel()
+	}
+	<-v.done
+}
